@@ -11,7 +11,7 @@ from ..engine.explore import Outcome
 from . import signals
 
 PID = 'C05'
-TIMEOUT = 30.0
+TIMEOUT = 300.0
 RULE = ('every 3-level sequence of length 1..L and every F_B signal; per signal 36 get_padded_extrema calls (6 pad '
         'widths x parabolic x 3 modes) and 90 interp_envelope calls (5 pad widths x parabolic x 3 methods x 3 modes); '
         'non-trivial = the signal has >= 2 extrema of some kind')
